@@ -4,24 +4,26 @@ import os
 from vf import Inconclusive, parallel, require_clean, trace_slice
 
 CLAIM = {
-    "text": "Aggregators.tla states what the histogram counter, sub-key counter, table (incl. Trim), accumulating group and numerical aggregator hold after a history, once as an order-free bag fold and once as a state machine in which reading the aggregator (any accessor, any time) is an explicit stuttering step; AggregatorsImpl.tla transcribes the Go data structures (sorted sub-key list with re-indexed row vectors, cells with redundant row/column totals, Trim's nested map loops in every iteration order, value list sorted in place by Analyze, optionally a memoising ComputeMinMax). Numerical values up to 10^11 are read into exact big integers and folded relative to a base (shift law: count, order statistics, min, max and mean shift with the base, the variance does not). TLC checks over all histories within the bounds - samples, trims and observation steps interleaved in every order: state machine = bag fold, permutation invariance, commutation of any two samples, totals = sums of cells, min/max with absent cells as 0, Trim post-condition, the simulation relation implementation-shaped => abstract after every interleaving (a memo dropped by SampleItem and Trim passes, one that Trim does not drop must fail: negative control), rank definitions = sorted-list indices, exact moments of the full large values = shifted moments of the deltas, text <-> value round trip, and that the mean/stddev tolerances accept the exact value and reject neighbours. Every enumerated history (every prefix is a vector) is replayed on ONE long-lived real aggregator instance, reading every public accessor at each observation step and at the end and comparing with the value TLC computed, once feeding the samples as text and once through the typed entry points with the arguments the specification decoded; seeded long random histories over large alphabets and large numerical offsets, with observations and trims interleaved at random, are recorded from the real aggregators and validated by TLC (exact BigInt moments, rank order statistics).",
+    "text": "Aggregators.tla states what the histogram counter, sub-key counter, table (incl. Trim), accumulating group and numerical aggregator hold after a history, once as an order-free bag fold and once as a state machine in which reading the aggregator (any accessor, any time) is an explicit stuttering step; AggregatorsImpl.tla transcribes the Go data structures (sorted sub-key list with re-indexed row vectors, cells with redundant row/column totals, Trim's nested map loops in every iteration order, value list sorted in place by Analyze, optionally a memoising ComputeMinMax, the accumulating group's ONE evaluation context shared by all Sample calls - match, current value, key lookup bound to the row written last - as the code resets and re-binds it, as a per-call context, and as three defective variants: lookup not cleared, current not cleared, memoising GetKey). Numerical values up to 10^11 are read into exact big integers and folded relative to a base (shift law: count, order statistics, min, max and mean shift with the base, the variance does not). TLC checks over all histories within the bounds - samples, trims and observation steps interleaved in every order: state machine = bag fold, permutation invariance, commutation of any two samples, totals = sums of cells, min/max with absent cells as 0, Trim post-condition, the simulation relation implementation-shaped => abstract after every interleaving (a memo dropped by SampleItem and Trim passes, one that Trim does not drop must fail: negative control; for the accumulating group the reset and the per-call context pass and whatever the context is left holding, the next sample's group is a function of that sample alone (AccKeyPure), while a stale lookup, a stale current value and a memoising GetKey must fail on configurations whose group expressions name a data column / {.} / an unknown key and whose data expressions read a column before and after its update: negative controls), rank definitions = sorted-list indices, exact moments of the full large values = shifted moments of the deltas, text <-> value round trip, and that the mean/stddev tolerances accept the exact value and reject neighbours. Every enumerated history (every prefix is a vector) is replayed on ONE long-lived real aggregator instance, reading every public accessor at each observation step and at the end and comparing with the value TLC computed, once feeding the samples as text and once through the typed entry points with the arguments the specification decoded; seeded long random histories over large alphabets and large numerical offsets, with observations and trims interleaved at random, are recorded from the real aggregators and validated by TLC (exact BigInt moments, rank order statistics).",
     "note": "Bounded: exhaustive only for the listed alphabets/lengths, random beyond. Increments are limited to 9 digits and totals to +-10^9 (TLC integers), int64 overflow is outside the model. Numerical samples: decimal texts with <= 11 integer and <= 3 fraction digits, all values of one history within +-10^6 of its base. Mean is accepted within 10^-3 absolute, the sample standard deviation within 10^-3 absolute + 10^-6 relative, both plus a floating-point allowance of about 4*n*|base|*2^-52 (0 for base 0; 10^-3 at n = 588 for base 1.7*10^9); median = rank floor(n/2)+1, quantile(p) = rank min(floor(n*p)+1, n) of the (optionally reversed) ordered series, checked where floor(n*p) is not at the mercy of binary rounding (p a multiple of 1/8 or n*p not an integer); any most frequent value is accepted as mode. After a Trim only cells, rows, columns and min/max are specified (the row/column totals kept by the implementation are not part of the property). Sorted order of SubKeys() is a model invariant, not a verdict. A StatisticalAnalysis handle obtained before later samples is not specified (a fresh Analyze() is taken at every observation). Trusted: Go strconv, the expression engine for the accumulator's helper functions (sumi/maxi/mini semantics are modelled), TLC.",
     "technique": "TLA+ model checking (TLC) with simulation-relation refinement and a negative control + model-history replay on long-lived instances + trace validation with exact rational arithmetic",
 }
 
-CONST = ("CONSTANTS Which = \"%s\"\n Profile = %d\n MaxLen = %d\n Memo = \"%s\"\n TrimFixed = %s\n"
+CONST = ("CONSTANTS Which = \"%s\"\n Profile = %d\n MaxLen = %d\n Memo = \"%s\"\n TrimFixed = %s\n AccCtx = \"%s\"\n"
          " Elems <- MCElems\n Preds <- MCPreds\n AccCfg <- MCAccCfg\n")
 
 
 def mc_cfg(which, prof, maxlen, invs, memo="none"):
     # Memo = "oldtrim": the negative control for Trim as it was before fix 1000522
+    # which = "acc": the field selects the treatment of the shared evaluation context (AccCtx)
     tf = "FALSE" if memo == "oldtrim" else "TRUE"
-    memo = "none" if memo == "oldtrim" else memo
-    return "SPECIFICATION Spec\n" + CONST % (which, prof, maxlen, memo, tf) + "INVARIANTS %s\nCHECK_DEADLOCK FALSE\n" % invs
+    accctx = memo if which == "acc" and memo != "none" else "reset"
+    memo = "none" if memo == "oldtrim" or which == "acc" else memo
+    return "SPECIFICATION Spec\n" + CONST % (which, prof, maxlen, memo, tf, accctx) + "INVARIANTS %s\nCHECK_DEADLOCK FALSE\n" % invs
 
 
 def gen_cfg(which, prof, maxlen, invs, obs_repeat):
-    return ("INIT GInit\nNEXT GNext\n" + CONST % (which, prof, maxlen, "none", "TRUE") + " ObsRepeat = %s\n" % ("TRUE" if obs_repeat else "FALSE")
+    return ("INIT GInit\nNEXT GNext\n" + CONST % (which, prof, maxlen, "none", "TRUE", "reset") + " ObsRepeat = %s\n" % ("TRUE" if obs_repeat else "FALSE")
             + "INVARIANTS %s\nCHECK_DEADLOCK FALSE\n" % invs)
 
 
@@ -37,6 +39,7 @@ def check(run):
         "mean within 10^-3; stddev within 10^-3 + 10^-6 relative; both plus floor(n*(floor(|base|/10^5)+1)/10^7)*10^-3 for floating-point summation at a large base; median = rank floor(n/2)+1; quantile(p) = rank min(floor(n*p)+1, n); any most frequent value is a mode",
         "accessors are specified as pure reads: Observe steps (all public accessors) may be interleaved anywhere; a StatisticalAnalysis handle kept across later samples is not specified",
         "after Trim only cells / rows / columns / min / max are specified; Trim's return value only bounded (>= selected existing cells, <= rows x columns)",
+        "accumulating group: while the group of a sample is determined, data columns, {.} and unknown keys read as empty (the group is a function of the sample alone); in data expressions a group name or an unknown key reads as empty; the --sort expression is set and evaluated by Groups() but the ORDER of the listing is left to C13",
         "B3/B1 bounds: alphabets and history lengths as listed in tlc_runs",
     ]
     run.build_harness()
@@ -45,6 +48,12 @@ def check(run):
     # variable, deeper; costly laws.  (gen/mc, aggregator, profile, MaxLen, invariants, Memo, consecutive "o")
     G = "FoldOK PermInv Sim Dump"
     T = "Sim TotalsOK TrimOK"
+    # accumulating group: profiles 4-6 put the shared evaluation context under test (group expressions naming a
+    # column / {.} / an unknown key; a column read before and after its update).  For which = "acc" the Memo field
+    # of a plan entry selects AccCtx (treatment of the context): reset (the code), fresh (refactoring), and the
+    # negative controls stalelook / stalecur / memokey.
+    GA = G + " AccKeyPure"
+    A = "Sim AccKeyPure AccGroupsOK"
     if quick:
         plan = [
             ("gen", "sub", 2, 4, G, "none", False), ("gen", "tbl", 2, 4, G, "none", False),
@@ -55,6 +64,10 @@ def check(run):
             ("mc", "tbl", 2, 4, T + " CommuteB", "none", True), ("mc", "ctr", 2, 5, "Sim CommuteB", "none", True),
             ("gen", "acc", 1, 4, G, "none", False), ("gen", "acc", 2, 4, G, "none", False), ("gen", "acc", 3, 3, G, "none", True),
             ("mc", "tbl", 2, 4, T, "ok", True), ("neg", "tbl", 2, 4, "Sim", "stale", True),
+            ("gen", "acc", 4, 4, GA, "none", False), ("gen", "acc", 5, 4, GA, "none", False), ("gen", "acc", 6, 3, GA, "none", True),
+            ("mc", "acc", 4, 5, A, "reset", True), ("mc", "acc", 5, 5, A, "fresh", True),
+            ("neg", "acc", 4, 3, "Sim", "stalelook", True), ("neg", "acc", 5, 3, "Sim", "stalecur", True),
+            ("neg", "acc", 4, 3, "Sim", "memokey", True),
         ]
     else:
         plan = [
@@ -72,6 +85,13 @@ def check(run):
             ("mc", "tbl", 2, 5, T, "ok", True), ("mc", "tbl", 1, 4, T, "ok", True),
             ("neg", "tbl", 2, 4, "Sim", "stale", True), ("neg", "tbl", 1, 3, "Sim", "stale", True),
             ("neg", "tbl", 1, 3, "Sim", "oldtrim", True),
+            ("gen", "acc", 4, 5, GA, "none", False), ("gen", "acc", 5, 5, GA, "none", False), ("gen", "acc", 6, 5, GA, "none", True),
+            ("mc", "acc", 4, 6, A, "reset", True), ("mc", "acc", 5, 6, A, "reset", True), ("mc", "acc", 6, 6, A, "reset", True),
+            ("mc", "acc", 1, 6, A, "reset", True), ("mc", "acc", 2, 6, A, "reset", True), ("mc", "acc", 3, 6, A, "reset", True),
+            ("mc", "acc", 4, 6, A, "fresh", True), ("mc", "acc", 5, 6, A, "fresh", True), ("mc", "acc", 6, 6, A, "fresh", True),
+            ("neg", "acc", 4, 3, "Sim", "stalelook", True), ("neg", "acc", 5, 3, "Sim", "stalelook", True),
+            ("neg", "acc", 6, 3, "Sim", "stalelook", True), ("neg", "acc", 5, 3, "Sim", "stalecur", True),
+            ("neg", "acc", 6, 3, "Sim", "stalecur", True), ("neg", "acc", 4, 3, "Sim", "memokey", True),
         ]
     jobs = []
     for kind, which, prof, ml, invs, memo, rep in plan:
@@ -82,16 +102,18 @@ def check(run):
         else:
             jobs.append(lambda kind=kind, which=which, prof=prof, ml=ml, invs=invs, memo=memo: (kind, which, prof, run.tlc(
                 "AggregatorsImpl", mc_cfg(which, prof, ml, invs, memo), workers=2, xmx="3g", timeout=3000,
-                label="AggregatorsImpl %s profile=%d MaxLen=%d Memo=%s [%s]%s" % (
-                    which, prof, ml, memo, invs, " negative control: must be violated" if kind == "neg" else ""))))
+                label="AggregatorsImpl %s profile=%d MaxLen=%d %s=%s [%s]%s" % (
+                    which, prof, ml, "AccCtx" if which == "acc" else "Memo", memo, invs, " negative control: must be violated" if kind == "neg" else ""))))
     vec_path = os.path.join(run.scratch, "c07-vectors.ndjson")
     nvec, ntrim, nobsv, per = 0, 0, 0, {}
     acccfg = {}
     with open(vec_path, "w") as f:
-        for kind, which, prof, r in parallel(jobs, 4):
+        for kind, which, prof, r in parallel(jobs, 3):
             if kind == "neg":
                 # a ComputeMinMax memo that Trim does not drop must break the simulation relation
-                # (sample, observe, trim, observe), and so must Trim as it was before fix 1000522;
+                # (sample, observe, trim, observe), and so must Trim as it was before fix 1000522, and an
+                # accumulating group whose shared context keeps the key lookup / the current value of the
+                # previous sample, or remembers a key across the column's update;
                 # otherwise the model would not see that class of defect
                 if "Sim" not in r.violated:
                     raise Inconclusive("negative control passed (%s profile %d): Sim not violated\n%s" % (which, prof, r.out[-2000:]))
@@ -112,7 +134,7 @@ def check(run):
                     nobsv += 1
                 if which == "acc" and str(prof) not in acccfg:
                     acccfg[str(prof)] = json.loads(text)["cfg"]
-    if nvec < 20000 or ntrim < 1000 or nobsv < 5000 or len(per) < 5 or len(acccfg) < 3:
+    if nvec < 20000 or ntrim < 1000 or nobsv < 5000 or len(per) < 5 or len(acccfg) < 6:
         raise Inconclusive("generator produced too little: %d vectors %s, %d with trims, %d with observation steps" % (
             nvec, per, ntrim, nobsv))
     run.cov["b1_vectors_with_observation_steps"] = nobsv
